@@ -132,6 +132,8 @@ class CallMixin:
                     self._alloc_origin = saved_origin
                 if isinstance(v, Ptr) and v.loc in state.heap:
                     state.heap[v.loc] = replace(state.heap[v.loc], origin="default-arg")
+                if isinstance(v, (Num, Str)) and v.prov:
+                    v = replace(v, prov=v.prov | {"DEFTIME"})  # evaluated once, at definition time
                 vals.append(v)
             self.default_cache[key] = vals
         return self.default_cache[key]
